@@ -54,6 +54,36 @@ def run(F, chk):
         for blk in b.calls():
             if CREATE.match(blk.term.callee.path):
                 creates.append((b, blk))
+    # a private write helper (`fn write_new_file(path, data) { File::create(path)?.write_all(data) }`) used by the two reviewed
+    # functions: its call sites stand for the create (path = the argument that reaches File::create; it truncates like the
+    # original File::create only if it still is File::create / create(true)+truncate(true))
+    lifted = []
+    for (hb, hblk) in list(creates):
+        if hb.kind == 'closure' or hb.path.endswith('check_auto_save') or hb.path.endswith('apply_command'):
+            continue
+        if hblk.term.callee.path not in ('std::fs::File::create', 'std::fs::write'):
+            continue          # OpenOptions & co: the flags decide, not liftable
+        hcfg = CFG(hb)
+        a0 = hblk.term.args[0] if hblk.term.args else None
+        o = hcfg.origin_of_operand(a0) if a0 is not None and a0.place is not None else None
+        if o is None or not (1 <= o.l <= hb.arg_count) or any(e['k'] != 'deref' for e in o.p):
+            continue
+        if sum(1 for (b2, k2) in creates if b2 is hb) != 1:
+            continue
+        callers = [(b2, k2) for b2 in bodies for k2 in b2.calls() if (k2.term.callee.resolved or k2.term.callee.path) == hb.path]
+        if callers and all(b2.path.endswith('check_auto_save') or b2.path.endswith('apply_command') or (b2.closure_of or '').endswith('check_auto_save') or (b2.closure_of or '').endswith('apply_command') for (b2, k2) in callers):
+            creates.remove((hb, hblk))
+            for (b2, k2) in callers:
+                # present the call as `create(path, ..)`: the path argument first
+                import copy
+                vt = copy.copy(k2.term)
+                vt.d = dict(k2.term.d)
+                raw = list(k2.term.d['args'])
+                vt.d['args'] = [raw[o.l - 1]] + [a for i_, a in enumerate(raw) if i_ != o.l - 1]
+                vb = copy.copy(k2)
+                vb.term = vt
+                creates.append((b2, vb))
+                lifted.append((b2.path, hb.path))
     V2.sites += len(creates)
     auto = [(b, blk) for (b, blk) in creates if b.path.endswith('check_auto_save') or (b.closure_of or '').endswith('check_auto_save')]
     other = [(b, blk) for (b, blk) in creates if (b, blk) not in auto]
